@@ -145,6 +145,37 @@ pub fn bls_sig() -> &'static ([u8; 96], [u8; 48], Vec<u8>) {
     })
 }
 
+/// valid (pubkey, digest, signature) triples for secp256k1 / secp256r1, signed by the harness
+pub fn secp_vectors() -> &'static (Vec<(Vec<u8>, Vec<u8>, Vec<u8>)>, Vec<(Vec<u8>, Vec<u8>, Vec<u8>)>) {
+    use k256::ecdsa::signature::hazmat::PrehashSigner;
+    static V: std::sync::OnceLock<(Vec<(Vec<u8>, Vec<u8>, Vec<u8>)>, Vec<(Vec<u8>, Vec<u8>, Vec<u8>)>)> = std::sync::OnceLock::new();
+    V.get_or_init(|| {
+        let mut k1 = Vec::new();
+        let mut r1 = Vec::new();
+        for i in 1..4u8 {
+            let digest = [i.wrapping_mul(37); 32];
+            let mut key = [0u8; 32];
+            key[31] = i;
+            key[5] = 0x5a;
+            if let Ok(sk) = k256::ecdsa::SigningKey::from_slice(&key) {
+                let sig: Result<k256::ecdsa::Signature, _> = sk.sign_prehash(&digest);
+                if let Ok(sig) = sig {
+                    let pk = sk.verifying_key().to_sec1_point(true).as_bytes().to_vec();
+                    k1.push((pk, digest.to_vec(), sig.to_bytes().to_vec()));
+                }
+            }
+            if let Ok(sk) = p256::ecdsa::SigningKey::from_slice(&key) {
+                let sig: Result<p256::ecdsa::Signature, _> = sk.sign_prehash(&digest);
+                if let Ok(sig) = sig {
+                    let pk = sk.verifying_key().to_sec1_point(true).as_bytes().to_vec();
+                    r1.push((pk, digest.to_vec(), sig.to_bytes().to_vec()));
+                }
+            }
+        }
+        (k1, r1)
+    })
+}
+
 pub struct GenProg {
     pub prog: Sx,
     pub env: Sx,
@@ -689,24 +720,50 @@ impl PB<'_> {
     }
 
     fn secp(&mut self, d: u32) -> u32 {
-        // arguments: pubkey (33 bytes), message hash (32), signature (64): mostly invalid
-        let pkb = {
-            let mut b = self.rng.bytes(33);
-            b[0] = 2 + (b[0] & 1);
-            b
+        // arguments: pubkey (33 bytes), message digest (32), signature (64). Half of the time a
+        // valid triple signed by the harness (sometimes for the other curve, or perturbed)
+        let (k1, r1) = secp_vectors();
+        let use_k1 = self.rng.bool();
+        let (qpk, h, qs) = if self.rng.bool() && !k1.is_empty() && !r1.is_empty() {
+            let (pk, dg, sg) = if use_k1 { self.rng.pick(k1).clone() } else { self.rng.pick(r1).clone() };
+            let mut sg = sg;
+            if self.rng.chance(1, 6) {
+                let i = self.rng.usize(sg.len());
+                sg[i] ^= 1;
+            }
+            let pk = self.atom(&pk);
+            let qpk = self.q(pk);
+            let dg = self.atom(&dg);
+            let qd = self.q(dg);
+            let sg = self.atom(&sg);
+            let qs = self.q(sg);
+            (qpk, qd, qs)
+        } else {
+            let pkb = {
+                let mut b = self.rng.bytes(33);
+                b[0] = 2 + (b[0] & 1);
+                b
+            };
+            let pk = self.atom(&pkb);
+            let qpk = self.q(pk);
+            let h = self.expr(Kind::Bytes32, d.min(1));
+            let sg = self.rng.bytes(64);
+            let s = self.atom(&sg);
+            let qs = self.q(s);
+            (qpk, h, qs)
         };
-        let pk = self.atom(&pkb);
-        let qpk = self.q(pk);
-        let h = self.expr(Kind::Bytes32, d.min(1));
-        let sg = self.rng.bytes(64);
-        let s = self.atom(&sg);
-        let qs = self.q(s);
-        match self.rng.below(4) {
-            0 => self.op(&[0x13, 0xd6, 0x1f, 0x00], &[qpk, h, qs]),
-            1 => self.op(&[0x1c, 0x3a, 0x8f, 0x00], &[qpk, h, qs]),
-            2 => self.op1(64, &[qpk, h, qs]),
-            _ => self.op1(65, &[qpk, h, qs]),
+        // the opcode: mostly the matching one; sometimes the other curve, the 1-byte forms, or a
+        // neighbour that shares the 3-byte cost prefix but has a different last byte
+        let k1_code = [0x13u8, 0xd6, 0x1f, 0x00];
+        let r1_code = [0x1cu8, 0x3a, 0x8f, 0x00];
+        let mut code = if use_k1 == !self.rng.chance(1, 8) { k1_code } else { r1_code };
+        match self.rng.below(10) {
+            0 => return self.op1(if use_k1 { 64 } else { 65 }, &[qpk, h, qs]),
+            1 | 2 => code[3] = self.rng.below(256) as u8,
+            3 => code[3] = *self.rng.pick(&[0x01u8, 0x3f, 0x40, 0x80, 0xc0, 0xff]),
+            _ => {}
         }
+        self.op(&code, &[qpk, h, qs])
     }
 
     fn unknown_op(&mut self, d: u32) -> u32 {
